@@ -129,7 +129,7 @@ void ir_check(char const *fn, fcppt::int_range<I> const &r, i128 b, i128 e, i128
 {
   using W = Wrap<I>;
   using U = typename W::under;
-  static_assert(std::is_same_v<typename fcppt::int_range<I>::size_type, U>);
+  VERIF_TYPE_FACT((std::is_same_v<typename fcppt::int_range<I>::size_type, U>), "std::is_same_v<typename fcppt::int_range<I>::size_type, U>");
   i128 const n = e > b ? e - b : 0; // the documented number of elements
   bool const whole = cap == 0 || n <= cap;
   i128 const lim = whole ? n : cap;
@@ -753,17 +753,17 @@ void itrange_case_in(i64 len, i64 i, i64 j, char const *cn)
   }
   {
     auto const r = fcppt::iterator::make_range(std::next(cc.begin(), i), std::next(cc.begin(), j));
-    static_assert(std::is_same_v<typename std::remove_cvref_t<decltype(r)>::iterator, typename Cont::const_iterator>);
+    VERIF_TYPE_FACT((std::is_same_v<typename std::remove_cvref_t<decltype(r)>::iterator, typename Cont::const_iterator>), "std::is_same_v<typename std::remove_cvref_t<decltype(r)>::iterator, typename Cont::const_iterator>");
     if (!same_seq(r, sub)) fail("iterator::make_range|sequence|const", ctx());
   }
   {
     auto const r = fcppt::iterator::adapt_range(c);
-    static_assert(std::is_same_v<typename std::remove_cvref_t<decltype(r)>::iterator, typename Cont::iterator>);
+    VERIF_TYPE_FACT((std::is_same_v<typename std::remove_cvref_t<decltype(r)>::iterator, typename Cont::iterator>), "std::is_same_v<typename std::remove_cvref_t<decltype(r)>::iterator, typename Cont::iterator>");
     if (r.begin() != c.begin() || r.end() != c.end()) fail("iterator::adapt_range|begin-end", ctx());
     if (!same_seq(r, all)) fail("iterator::adapt_range|sequence", ctx());
     if (static_cast<i64>(fcppt::range::size(r)) != len) fail("range::size|adapted range", ctx());
     auto const cr = fcppt::iterator::adapt_range(cc);
-    static_assert(std::is_same_v<typename std::remove_cvref_t<decltype(cr)>::iterator, typename Cont::const_iterator>);
+    VERIF_TYPE_FACT((std::is_same_v<typename std::remove_cvref_t<decltype(cr)>::iterator, typename Cont::const_iterator>), "std::is_same_v<typename std::remove_cvref_t<decltype(cr)>::iterator, typename Cont::const_iterator>");
     if (cr.begin() != cc.begin() || cr.end() != cc.end() || !same_seq(cr, all)) fail("iterator::adapt_range|const", ctx());
     // adapting the sub-range object again gives the sub-range
     auto sr = fcppt::iterator::make_range(bi, bj);
